@@ -440,6 +440,8 @@ class AbsInt:
             pass
         for i, p in enumerate(params):
             if i < len(args):
+                if p in kwargs:
+                    raise AbsRaise('TypeError', node, implicit=True, msg=f'multiple values for argument {p}')
                 env[p] = args[i]
             elif p in kwargs:
                 env[p] = kwargs.pop(p)
@@ -1674,6 +1676,12 @@ class AbsInt:
                 if getattr(it, 'consumed', False):
                     return []
                 it.consumed = True
+            if it.kind == 'fickle':
+                # a re-iterable object whose passes differ (or a list another thread appends to): the first pass gives
+                # .items, every later pass gives .later
+                if getattr(it, 'consumed', False):
+                    return list(getattr(it, 'later', []))
+                it.consumed = True
             out = []
             for x in it.items:
                 if isinstance(x, SeqVar) and not keep_vars:
@@ -1990,6 +1998,8 @@ class AbsInt:
             if not args:
                 return AList([], f.__name__)
             src = args[0]
+            if f in (bytearray, bytes) and isinstance(src, int) and not isinstance(src, bool) and 0 <= src <= 4096:
+                return AList([0] * src, f.__name__)         # bytearray(5) is five zero bytes, not an error
             if isinstance(src, (AList, SeqVar)):
                 items = src.items if isinstance(src, AList) else [src]
                 return AList(items, f.__name__)
